@@ -148,4 +148,8 @@ MUTANTS = [
     ("C10", "detect", "specs/openapi/stateful/__init__.py", "                    if isinstance(extracted.value, Ok) and extracted.value.ok() not in (None, UNRESOLVABLE)", "                    if isinstance(extracted.value, Ok) and extracted.value.ok() is not None", "UNRESOLVABLE marker passed on as a parameter value"),
     ("C20", "detect", GQL, "                field_name=field_name,\n                root_type=root_type,", "                field_name=field_name,\n                root_type=RootType.QUERY,", "every GraphQL operation recorded as a query"),
     ("C11", "detect", UNIT, "    try:\n        setup_hypothesis_database_key(test_function, operation)\n        with catch_warnings", "    setup_hypothesis_database_key(test_function, operation)\n    try:\n        with catch_warnings", "database-key fault escapes the worker's error handling"),
+    ("C19", "detect", "auths.py", "        attach_filter_chain(_FilterableRequestsAuth, \"apply_to\", filter_set.include)\n        attach_filter_chain(_FilterableRequestsAuth, \"skip_for\", filter_set.exclude)", "        attach_filter_chain(_FilterableRequestsAuth, \"apply_to\", filter_set.exclude)\n        attach_filter_chain(_FilterableRequestsAuth, \"skip_for\", filter_set.include)", "requests-auth form: apply_to / skip_for swapped"),
+    ("C19", "detect", "auths.py", "        if not filter_set.is_empty():\n            provider = SelectiveAuthProvider(provider, filter_set)", "        if filter_set.is_empty():\n            provider = SelectiveAuthProvider(provider, filter_set)", "filters of a registered provider dropped"),
+    ("C19", "detect", "auths.py", "            auth_storage = self.__class__()\n            AuthStorageMark.set(test, auth_storage)", "            auth_storage = self\n            AuthStorageMark.set(test, auth_storage)", "test-scoped auth registered on the schema's storage"),
+    ("C19", "detect", "hooks.py", "            attach_filter_chain(decorator, \"apply_to\", hook_filter_set.include)\n            attach_filter_chain(decorator, \"skip_for\", hook_filter_set.exclude)", "            attach_filter_chain(decorator, \"apply_to\", hook_filter_set.exclude)\n            attach_filter_chain(decorator, \"skip_for\", hook_filter_set.include)", "by-name hooks: apply_to / skip_for swapped"),
 ]
